@@ -6,6 +6,7 @@ import numpy as np
 
 from .. import core, symbols
 from ..translate import spectral as tr_spectral
+from ..translate import nonlin as tr_nonlin
 
 ID = "C12"
 PROPS_FILE = "C12"
@@ -21,7 +22,7 @@ def translate(ctx):
     """Gen/InjectionGen.v (and the layout functions of Gen/SpectralGen.v it is tied through): gen_injection2d / gen_injection3d, the forcing arrays of the Kolmogorov nonlinear functions re-translated from the
     source (tied to Nonlin/Injection.v by Tie/InjectionTie.v and the theorem C12_code_injection_is_model_injection)"""
     errors = []
-    for name, fn in (("spectral", tr_spectral.run), ("injection", tr_spectral.run_injection)):
+    for name, fn in (("spectral", tr_spectral.run), ("injection", tr_spectral.run_injection), ("nonlin", tr_nonlin.run)):
         try:
             fn()
         except Exception as e:
